@@ -21,7 +21,8 @@ type Case struct {
 	Pre   *Prelude // filtered events started before this one (not part of the model's case)
 	// Entry: how the event is started (all of them are the same event for the model): 0 WithLevel(level); 1 the level's
 	// own method (Trace() .. Error(), Log() for NoLevel); 2 the io.Writer bridge Logger.Write (NoLevel, no fields, Msg);
-	// 3 / 4 Logger.Print / Printf (Debug, no fields).  See EntryUsed.
+	// 3 / 4 Logger.Print / Printf (Debug, no fields); 5 Logger.Println (the same, for a message that ends in the newline
+	// Println adds).  See EntryUsed.
 	Entry int
 	// Root: 0 New(w); 1 Nop().Output(w) - Disabled from the start, a descendant is re-enabled by Level() (Step.Mute)
 	Root int
